@@ -19,6 +19,12 @@ def main(prop: str, tier: str) -> int:
     for k in ('states', 'transitions', 'traces_validated_against_impl'):
         cov[k] = ev1['coverage'].get(k, 0) + ev2['coverage'].get(k, 0)
     cov['document_level'] = {k: v for k, v in ev2['coverage'].items() if k not in ('samples',)}
+    from checks import pos_proof
+    pp = pos_proof.run()
+    cov['position_monoid_proof'] = pp
+    if pp.get('available') and not pp.get('timed_out') and not pp.get('all_proved'):
+        print('MACHINERY-ERROR: tlapm did not prove the Position monoid laws: ' + pp.get('tail', ''))
+        rc1 = max(rc1, 2)
     cov['samples'] = ev1['coverage'].get('samples', [])[:2] + ev2['coverage'].get('samples', [])[:1]
     kf = dict(ev1['coverage'].get('known_findings_seen', {}))
     kf.update(ev2['coverage'].get('known_findings_seen', {}))
